@@ -22,12 +22,18 @@ ENCODED = ['Event.__init__', 'Asset.__init__', 'System.simulate', 'System.simula
 ASSUMPTIONS = ['S6 concurrent.futures.ProcessPoolExecutor in system.py is replaced by a synchronous executor honouring the '
                'submit()/Future.result() contract: real worker processes, pickling and fork/spawn differences are outside',
                'devices and part generators carry explicit names, so that names do not embed asset ids',
-               'A4: Asset._id_counter and System._instance are process-global and set by the harness']
+               'A4: Asset._id_counter and System._instance are process-global and set by the harness',
+               'S10: in the run-twice analyses devices are instances of subclasses that only add __hash__, ascending in the first run and '
+               'descending in the second (object hashes stand for memory addresses, which differ between processes)']
 T = L.T
 
 MERGE = {'devices': [{'k': 'source', 'name': 's1', 'cycle': 'c0', 'parts': 2}, {'k': 'source', 'name': 's2', 'cycle': 'c1', 'parts': 1},
                      {'k': 'buffer', 'name': 'b', 'up': ['s1', 's2'], 'delay': 0, 'cap': 1},
                      {'k': 'sink', 'name': 'snk', 'up': ['b'], 'cycle': 'cs'}]}
+MERGE3 = {'devices': [{'k': 'source', 'name': 's1', 'cycle': 0, 'parts': 1}, {'k': 'source', 'name': 's2', 'cycle': 0, 'parts': 1},
+                      {'k': 'source', 'name': 's3', 'cycle': 0, 'parts': 1},
+                      {'k': 'proc', 'name': 'p', 'up': ['s1', 's2', 's3'], 'cycle': 'c1'},
+                      {'k': 'sink', 'name': 'snk', 'up': ['p'], 'cycle': 0}]}
 FAN = {'devices': [{'k': 'source', 'name': 'src', 'cycle': 'c0', 'parts': 2},
                    {'k': 'proc', 'name': 'p1', 'up': ['src'], 'cycle': 'c1'}, {'k': 'proc', 'name': 'p2', 'up': ['src'], 'cycle': 'c1'},
                    {'k': 'sink', 'name': 'snk', 'up': ['p1', 'p2'], 'cycle': 'cs'}]}
@@ -45,6 +51,7 @@ def _subs(tier):
     S = []
     S.append(_mk('twice-merge', 'twice', MERGE, [('off', 0, 10 ** 6)], zero=['cs']))
     S.append(_mk('twice-fanout', 'twice', FAN, [('off', 0, 10 ** 6)], zero=['cs']))
+    S.append(_mk('twice-merge3-bottleneck', 'twice', MERGE3, [('off', 0, 10 ** 6)]))
     S.append(_mk('split-merge', 'split', MERGE, [('a', 0, 3 * T)], zero=['cs']))
     S.append(_mk('split-fanout', 'split', FAN, [('a', 0, 3 * T)], zero=['cs', 'c0']))
     if not q:
@@ -152,9 +159,10 @@ def _compare(ctx, a, b, off, label):
         ctx.require(ctx.And(*conds), label, 'a recorded value, counter or the final clock differs')
 
 
-def _run_model(ctx, spec, args, horizons):
+def _run_model(ctx, spec, args, horizons, hash_order=None):
     spec = dict(copy.deepcopy(spec), horizons=horizons)
     world = L.World(ctx, spec, args)
+    world.hash_order = hash_order
     L.run_world(world, [])
     return world
 
@@ -166,7 +174,7 @@ def run(shape, args, ctx):
     spec = shape['spec']
     z = ctx.z
     if mode == 'twice':
-        w1 = _run_model(ctx, spec, args, [10 ** 7])
+        w1 = _run_model(ctx, spec, args, [10 ** 7], hash_order='asc')
         s1 = _snapshot(w1)
         base = ctx.rng
         weights = list(base.handed)
@@ -174,7 +182,7 @@ def run(shape, args, ctx):
         Asset._id_counter = args['off']
         System._instance = None
         ctx.rng = _Replay(weights, base)
-        w2 = _run_model(ctx, spec, args, [10 ** 7])
+        w2 = _run_model(ctx, spec, args, [10 ** 7], hash_order='desc')     # another memory layout (S10)
         s2 = _snapshot(w2)
         ctx.rng = base
         _compare(ctx, s1, s2, z(args['off']), 'second run with the same weights differs (beyond asset-id numbering)')
